@@ -21,6 +21,19 @@
 (*   out       results returned by `read` so far                           *)
 (*   halted    an error was returned (conn.rs leaves the read loop)        *)
 (*   done      clean end of stream reached                                 *)
+(*   tmo       read timeout installed on the socket by the last            *)
+(*             `set_stream_timeout`: "hdr" (HEADER_IO_TIMEOUT, 2 s) or      *)
+(*             "body" (BODY_IO_TIMEOUT, 60 s)                               *)
+(*   sil       the writing peer has been silent for longer than the header *)
+(*             timeout (and shorter than the body timeout) since the last  *)
+(*             delivery                                                    *)
+(*                                                                         *)
+(* "Within the I/O timeouts" (the property's quantifier) is the predicate  *)
+(* SilenceOK: a silence longer than the header timeout may occur between   *)
+(* two frames (the reader polls again) and anywhere after the 11 header    *)
+(* bytes of a frame (body, header items, attachment), where the body       *)
+(* timeout governs; gaps shorter than the header timeout may occur         *)
+(* anywhere (Deliver).                                                     *)
 (*                                                                         *)
 (* A definitional oracle `ExpectedSeq(stream)` states what the property    *)
 (* demands for the frames alone; `Faithful` compares the two for every     *)
@@ -34,10 +47,12 @@ CONSTANTS Streams,        \* set of frame sequences explored (MC module)
           BHMAX,          \* header_size_bytes(63) = 310: over-estimate read per header
           BATCH,          \* HEADER_BATCH_SIZE = 32
           CHUNK,          \* attachment chunk = 48 000
-          MaxBlockSize    \* msg.rs max_block_size() = max_block_weight / 21 * 708
+          MaxBlockSize,   \* msg.rs max_block_size() = max_block_weight / 21 * 708
+          TimeoutPerChunk \* TRUE: `set_stream_timeout` runs before every `read_exact` (codec.rs);
+                          \* FALSE: once per `read` call (probe configuration only)
 
-VARIABLES stream, avail, pos, buf, pre, pend, nl, st, pc, want, out, halted, done
-vars == <<stream, avail, pos, buf, pre, pend, nl, st, pc, want, out, halted, done>>
+VARIABLES stream, avail, pos, buf, pre, pend, nl, st, pc, want, out, halted, done, tmo, sil
+vars == <<stream, avail, pos, buf, pre, pend, nl, st, pc, want, out, halted, done, tmo, sil>>
 
 Min(a, b) == IF a < b THEN a ELSE b
 Max(a, b) == IF a > b THEN a ELSE b
@@ -168,26 +183,48 @@ Init == /\ stream \in Streams
         /\ avail = 0 /\ pos = 0 /\ buf = 0 /\ pre = 0 /\ pend = 0 /\ nl = 0
         /\ st = NoneSt /\ pc = "call" /\ want = -1 /\ out = <<>>
         /\ halted = FALSE /\ done = FALSE
+        /\ tmo = "body"      \* a fresh socket has no read timeout: nothing fires within the body timeout
+        /\ sil = FALSE
 
 Running == ~halted /\ ~done
+
+\* "Within the I/O timeouts": the byte offsets at which the writing peer may pause for longer than
+\* HEADER_IO_TIMEOUT (always shorter than BODY_IO_TIMEOUT).  Between two frames, and anywhere from
+\* the end of the 11 header bytes of a frame to the end of its body / attachment.  A pause of that
+\* length inside the 11 header bytes is outside the property's quantifier.
+SilenceOK(s, p) == \E i \in 1..Len(s) : LET b == StartOf(s, i) IN
+                      p = b \/ (p >= b + HDR /\ p < b + FrameSize(s[i]))
 
 \* The network hands over bytes up to some later boundary.  Delivering only when the reader is
 \* blocked on an empty socket loses no behaviour: a read syscall returns min(wanted, available),
 \* so any real schedule equals the lazy schedule cut where a syscall drained the socket.
+\* Without a preceding Silence the gap is shorter than every timeout.
 Deliver == /\ Running /\ pc = "read" /\ avail = pos /\ avail < Total(stream)
            /\ avail' \in {c \in Cuts(stream) \cup {Total(stream)} : c > avail}
-           /\ UNCHANGED <<stream, pos, buf, pre, pend, nl, st, pc, want, out, halted, done>>
+           /\ sil' = FALSE
+           /\ UNCHANGED <<stream, pos, buf, pre, pend, nl, st, pc, want, out, halted, done, tmo>>
+
+\* The peer stays silent for longer than the header timeout (shorter than the body timeout)
+\* before it sends the byte at offset `avail`.
+Silence == /\ Running /\ pc = "read" /\ avail = pos /\ avail < Total(stream) /\ ~sil
+           /\ SilenceOK(stream, avail)
+           /\ sil' = TRUE
+           /\ UNCHANGED <<stream, avail, pos, buf, pre, pend, nl, st, pc, want, out, halted, done, tmo>>
+
+\* Codec::set_stream_timeout: header timeout while no frame is open, body timeout otherwise
+TimeoutFor(s) == IF s.tag = "None" THEN "hdr" ELSE "body"
 
 \* conn.rs: Consumed::Attachment(meta, file) => codec.expect_attachment(meta)
 ExpectAttachment ==
   /\ Running /\ pc = "call" /\ want >= 0 /\ st.tag = "None"
   /\ st' = AttachmentSt(st.fi, want) /\ want' = -1
-  /\ UNCHANGED <<stream, avail, pos, buf, pre, pend, nl, pc, out, halted, done>>
+  /\ UNCHANGED <<stream, avail, pos, buf, pre, pend, nl, pc, out, halted, done, tmo, sil>>
 
 \* read(): enter read_inner
 Call == /\ Running /\ pc = "call" /\ want = -1
         /\ pc' = "loop"
-        /\ UNCHANGED <<stream, avail, pos, buf, pre, pend, nl, st, want, out, halted, done>>
+        /\ tmo' = IF TimeoutPerChunk THEN tmo ELSE TimeoutFor(st)
+        /\ UNCHANGED <<stream, avail, pos, buf, pre, pend, nl, st, want, out, halted, done, sil>>
 
 \* Codec::next_len
 NextLen == CASE st.tag = "None" -> HDR
@@ -196,28 +233,38 @@ NextLen == CASE st.tag = "None" -> HDR
              [] st.tag = "BlockHeaders" -> Min(st.bl, BHMAX)
              [] st.tag = "Attachment" -> Min(st.left, CHUNK)
 
-\* top of the loop: how many more bytes are needed on top of the carry-over buffer
+\* top of the loop: how many more bytes are needed on top of the carry-over buffer; the timeout
+\* for the coming read_exact is chosen from the state of *this* iteration
 Loop == /\ Running /\ pc = "loop"
         /\ nl' = NextLen
         /\ pre' = buf
         /\ LET toRead == Max(NextLen - buf, 0) IN
            /\ pend' = toRead
            /\ pc' = IF toRead > 0 THEN "read" ELSE "parse"
-        /\ UNCHANGED <<stream, avail, pos, buf, st, want, out, halted, done>>
+           /\ tmo' = IF TimeoutPerChunk /\ toRead > 0 THEN TimeoutFor(st) ELSE tmo
+        /\ UNCHANGED <<stream, avail, pos, buf, st, want, out, halted, done, sil>>
 
 \* one read syscall inside read_exact: takes what is there
 ReadExact == /\ Running /\ pc = "read" /\ pend > 0 /\ avail > pos
              /\ LET k == Min(pend, avail - pos) IN
                 /\ pos' = pos + k /\ buf' = buf + k /\ pend' = pend - k
                 /\ pc' = IF pend - k = 0 THEN "parse" ELSE "read"
-             /\ UNCHANGED <<stream, avail, pre, nl, st, want, out, halted, done>>
+             /\ UNCHANGED <<stream, avail, pre, nl, st, want, out, halted, done, tmo, sil>>
 
-\* The peer is silent between two frames for longer than HEADER_IO_TIMEOUT: read_exact fails
-\* having read nothing, the reserved bytes are undone, conn.rs simply calls read again.
-IdleTimeout == /\ Running /\ pc = "read" /\ st.tag = "None" /\ pend = HDR /\ pre = 0
-               /\ avail = pos /\ avail < Total(stream)
-               /\ buf' = pre /\ pend' = 0 /\ pc' = "call"
-               /\ UNCHANGED <<stream, avail, pos, pre, nl, st, want, out, halted, done>>
+\* The peer is silent for longer than the timeout in force: read_exact fails, the reserved bytes
+\* are undone (`buffer.truncate(pre_len)`), conn.rs simply calls read again.  Under the header
+\* timeout between two frames nothing was taken yet and nothing is lost.  Bytes that this
+\* read_exact had already taken out of the socket are gone with the truncation: the next read
+\* starts in the middle of the item (recorded as the error "lost"; NoDesync forbids it).  The body
+\* timeout never expires (silences are shorter).
+Timeout == /\ Running /\ pc = "read" /\ avail = pos /\ avail < Total(stream)
+           /\ sil /\ tmo = "hdr"
+           /\ buf' = pre /\ pend' = 0 /\ pc' = "call"
+           /\ IF buf = pre
+              THEN UNCHANGED <<out, halted>>
+              ELSE /\ out' = Append(out, Res("err", st.t, 0, 0, st.fi, pos, "lost"))
+                   /\ halted' = TRUE
+           /\ UNCHANGED <<stream, avail, pos, pre, nl, st, want, done, tmo, sil>>
 
 \* End of stream (peer closed).  Clean only between frames.
 Eof == /\ Running /\ pc = "read" /\ avail = pos /\ avail = Total(stream)
@@ -226,16 +273,16 @@ Eof == /\ Running /\ pc = "read" /\ avail = pos /\ avail = Total(stream)
           THEN done' = TRUE /\ UNCHANGED <<out, halted>>
           ELSE /\ out' = Append(out, Res("err", st.t, 0, 0, st.fi, pos, "eof"))
                /\ halted' = TRUE /\ UNCHANGED done
-       /\ UNCHANGED <<stream, avail, pos, pre, nl, st, want>>
+       /\ UNCHANGED <<stream, avail, pos, pre, nl, st, want, tmo, sil>>
 
 Return(res, newst, newbuf, w) ==
   /\ out' = Append(out, res) /\ st' = newst /\ buf' = newbuf /\ want' = w
   /\ pc' = "call" /\ halted' = (res.r = "err")
-  /\ UNCHANGED <<stream, avail, pos, pre, pend, nl, done>>
+  /\ UNCHANGED <<stream, avail, pos, pre, pend, nl, done, tmo, sil>>
 
 Continue(newst, newbuf) ==
   /\ st' = newst /\ buf' = newbuf /\ pc' = "loop"
-  /\ UNCHANGED <<stream, avail, pos, pre, pend, nl, want, out, halted, done>>
+  /\ UNCHANGED <<stream, avail, pos, pre, pend, nl, want, out, halted, done, tmo, sil>>
 
 \* state None: the HDR bytes in the buffer are parsed as a message header (MsgHeaderWrapper::read)
 ParseNone ==
@@ -307,7 +354,7 @@ ParseAttachment ==
 Parse == /\ Running /\ pc = "parse"
          /\ (ParseNone \/ ParseBody \/ ParseHeadersCount \/ ParseUnknown \/ ParseBlockHeader \/ ParseAttachment)
 
-Next == Deliver \/ ExpectAttachment \/ Call \/ Loop \/ ReadExact \/ IdleTimeout \/ Eof \/ Parse
+Next == Deliver \/ Silence \/ ExpectAttachment \/ Call \/ Loop \/ ReadExact \/ Timeout \/ Eof \/ Parse
 Spec == Init /\ [][Next]_vars
 
 ---------------------------------------------------------------------------
@@ -317,6 +364,7 @@ TypeOK ==
   /\ pc \in {"call", "loop", "read", "parse"}
   /\ st.tag \in {"None", "Header", "BlockHeaders", "Attachment"}
   /\ want >= -1 /\ halted \in BOOLEAN /\ done \in BOOLEAN
+  /\ tmo \in {"hdr", "body"} /\ sil \in BOOLEAN
 
 \* Merge the batches of one Headers frame / the chunks of one attachment: only totals, order and
 \* the "remaining"/"left" bookkeeping matter, not the grouping.
@@ -353,8 +401,13 @@ Faithful == (done \/ halted) => SeqAgrees(Visible(stream, out), ExpectedSeq(stre
 \* every prefix of the results is a prefix of the expectation (nothing spurious on the way)
 PrefixOK == LET v == Visible(stream, out)  e == ExpectedSeq(stream) IN
             \A j \in 1..Len(v) : j <= Len(e) /\ (j < Len(v) => Agree(v[j], e[j]))
-\* (2) the reader is never out of step with the frame boundaries
-NoDesync == \A j \in 1..Len(out) : out[j].why # "desync"
+\* (2) the reader is never out of step with the frame boundaries, and no byte taken out of the
+\*     socket is dropped by a read that timed out half-way
+NoDesync == \A j \in 1..Len(out) : out[j].why \notin {"desync", "lost"}
+\* while a frame is open every blocking read runs under the body timeout (a silence that the
+\* property allows inside a body never makes a read fail); the header timeout is in force only
+\* while the 11 header bytes are awaited
+BodyTimeoutInBody == pc = "read" => tmo = TimeoutFor(st)
 \* (3) a frame refused on its header costs the 11 header bytes only: nothing of the announced
 \*     body is read, and the buffer never grows beyond what a checked header allows
 RefusalCheap == \A j \in 1..Len(out) :
